@@ -5,7 +5,7 @@
 import os, sys
 sys.path.insert(0, os.path.join(os.environ.get("AIOFTP_REPO", "/repo"), "src"))
 OBLIGATION = 'aioftp.server:stor_worker@appe::stor_worker/exit:owned-data-stream-closed'
-MODEL = {'data_connection_done!22': True, 'block_size!0': 1, 'wait_future_timeout!41': '0/1', 'restart_offset!10': 1, 'data_connection_present!21': True, 'dc_accepted!35': False, 'dc_accepted!39': False, 'dc_accepted!43': False, 'dc_accepted!30': False, 'dc_accepted!34': False, 'dc_accepted!38': False, 'dc_accepted!29': False, 'user_present!11': True, 'user_done!12': True, 'current_directory_present!15': True, 'current_directory_done!16': True, 'passive_server_present!19': True, 'logged_present!13': True, 'passive_server_done!20': True, 'logged_done!14': True, 'auth_ok!27': True, 'fsbool!37': True, 'writable!33': True}
+MODEL = {'data_connection_done!22': True, 'block_size!0': 1, 'wait_future_timeout!48': '0/1', 'restart_offset!10': 1, 'data_connection_present!21': True, 'dc_accepted!35': False, 'dc_accepted!39': False, 'dc_accepted!50': False, 'dc_accepted!30': False, 'dc_accepted!34': False, 'dc_accepted!38': False, 'dc_accepted!29': False, 'user_present!11': True, 'user_done!12': True, 'current_directory_done!85': True, 'current_directory_present!84': True, 'current_directory_present!52': True, 'current_directory_present!41': True, 'current_directory_present!74': True, 'passive_server_done!20': True, 'logged_done!14': True, 'current_directory_done!53': True, 'fsbool!37': True, 'writable!33': True, 'current_directory_done!75': True, 'current_directory_present!15': True, 'current_directory_done!16': True, 'passive_server_present!19': True, 'logged_present!13': True, 'current_directory_done!42': True, 'current_directory_done!64': True, 'current_directory_present!63': True, 'auth_ok!27': True}
 SOLVER_NOTE = ''
 
 print("obligation", OBLIGATION, "failed; no concrete failing input could be constructed automatically")
